@@ -109,7 +109,7 @@ pub fn formula_template(kind: &str, header: bool, clauses: &[(Option<String>, Ve
 pub fn log_template(status: Option<bool>, known: bool, assignment: &[String], split: &[usize], ignore_unknown: bool) -> (Vec<Piece>, Value) {
     // `split`: number of literals on each value line (the terminating 0 goes on the last line)
     let mut t = Vec::new();
-    let other: Vec<&[u8]> = if ignore_unknown { vec![b"", b"c note\n", b"c \n", b"\n", b"c\n", b"hello\n", b" v 1\n", b"c a\nc b\n", b"x\r\n", b"c x\n v 7 0\n", b"c\n s UNSATISFIABLE\n", b"\n\tv 9 0\n"] } else { vec![b"", b"c note\n", b"c \n", b"c a\nc b\n", b"c x\r\n"] };
+    let other: Vec<&[u8]> = if ignore_unknown { vec![b"", b"c note\n", b"c \n", b"\n", b"c\n", b"hello\n", b" v 1\n", b"c a\nc b\n", b"x\r\n", b"c x\n v 7 0\n", b"c\n s UNSATISFIABLE\n", b"\n\tv 9 0\n", b"seed 42\n", b"starting search\n", b"s\n", b"v\n", b"v1 2 0\n", b"version 3\n", b"cx\n", b"sSATISFIABLE\n"] } else { vec![b"", b"c note\n", b"c \n", b"c a\nc b\n", b"c x\r\n"] };
     let inter = || Piece::Slot("between lines", alts(&other));
     t.push(inter());
     if known {
